@@ -459,6 +459,11 @@ var ctlHelpers = []*gt{
 	gApp(":-", gApp("and", gVar(0), gVar(1)), refCall1(gApp(",", gVar(0), gVar(1)))),
 	gApp(":-", gApp("or2", gVar(0), gVar(1)), gApp(";", gVar(0), gVar(1))),
 	gApp(":-", gApp("and2", gVar(0), gVar(1)), gApp(",", gVar(0), gVar(1))),
+	// a goal parameter as ONE conjunct of a conjunction written inside call/1: the whole conjunction is
+	// the body call/1 converts when it is called, so a cut G is bound to by then cuts a/1's alternatives
+	gApp(":-", gApp("ag", gVar(0), gVar(1)), refCall1(gApp(",", gApp("a", gVar(1)), gVar(0)))),
+	gApp(":-", gApp("ga", gVar(0), gVar(1)), refCall1(gApp(",", gVar(0), gApp("a", gVar(1))))),
+	gApp(":-", gApp("aga", gVar(0), gVar(1), gVar(2)), refCall1(gApp(",", gApp("a", gVar(1)), gApp(",", gVar(0), gApp("b", gVar(2)))))),
 }
 
 var c03Facts = []*gt{
@@ -625,7 +630,27 @@ func (g *c03Gen) viaVar(d int, cutIn bool) *gt {
 		els = g.seq(d-1, cutIn)
 	}
 	newV := func() *gt { g.local++; return gVar(g.local - 1) }
-	switch g.r.Intn(11) {
+	cutGoal := func() *gt {
+		switch g.r.Intn(4) {
+		case 0:
+			return gAtom("!")
+		case 1:
+			return gConj(gApp("==", g.xy(), gInt(int64(1+g.r.Intn(3)))), gAtom("!"))
+		case 2:
+			return gConj(gAtom("!"), g.simple())
+		default:
+			return g.seq(d-1, true)
+		}
+	}
+	switch g.r.Intn(15) {
+	case 11:
+		return gApp("ag", cutGoal(), g.xy())
+	case 12:
+		return gApp("ga", cutGoal(), g.xy())
+	case 13:
+		return gApp("aga", cutGoal(), gVar(c03X), gVar(c03Y))
+	case 14:
+		return gApp("and", gApp(pick(g.r, []string{"a", "b"}), g.xy()), cutGoal())
 	case 0:
 		return gApp("or", ifThen, els) // if-then-else assembled inside call/1
 	case 1:
@@ -900,6 +925,7 @@ const (
 )
 
 type c04Gen struct {
+	useCN     bool // the helper cn(G) :- call_nth(G, 1). is called
 	r         *rand.Rand
 	local     int
 	mark      int
@@ -973,6 +999,20 @@ func (g *c04Gen) leaf() *gt {
 		return gApp("=", gVar(c04R), gApp("k", gInt(int64(g.mark))))
 	case k < 57:
 		return gAtom("true")
+	case k < 58 && g.r.Intn(2) == 0:
+		// call_nth(G, 1) with a deterministic built-in, a user predicate, or a throwing goal
+		g.useCN = true
+		switch g.r.Intn(4) {
+		case 0:
+			g.mark++
+			return gApp("cn", gApp("=", gVar(c04R), gApp("k", gInt(int64(g.mark)))))
+		case 1:
+			return gApp("cn", gApp("atom_length", gAtom("abc"), g.newLocal()))
+		case 2:
+			return gApp("cn", gApp("a", g.xy()))
+		default:
+			return gApp("cn", gApp("throw", g.ball()))
+		}
 	case k < 58:
 		// the ball is a COPY of the thrown term: the unbound context of a user ball error(F, _) reaches
 		// the catcher unbound (nothing is filled in on the way)
@@ -1153,7 +1193,16 @@ func (g *c04Gen) body(d int) *gt {
 }
 
 func (g *c04Gen) program() []*gt {
+	prog := g.program0()
+	if g.useCN {
+		prog = append(prog, gApp(":-", gApp("cn", gVar(0)), gApp("call_nth", gVar(0), gInt(1))))
+	}
+	return prog
+}
+
+func (g *c04Gen) program0() []*gt {
 	prog := append([]*gt{}, c03Facts...)
+	g.useCN = false
 	g.hasQ = g.r.Intn(2) == 0
 	g.mark = 0
 	g.protected = false
